@@ -1,4 +1,8 @@
 #!/bin/sh
 # usage: tools/run_seeded_batch.sh <grep pattern> [tier]   — runs run_seeded.sh for every matching seeded id
 cd /verif
+# the batch uses one copy of the checker and one base commit throughout, whatever happens to /verif/bin or /repo meanwhile
+VCHECK=$(mktemp /dev/shm/vcheck-batch-XXXXXX); cp bin/vcheck $VCHECK; chmod +x $VCHECK; export VCHECK
+SEED_BASE=$(git -C /repo rev-parse HEAD); export SEED_BASE
+trap 'rm -f $VCHECK' EXIT
 for s in $(ls seeded | grep -- "$1"); do [ -d seeded/$s ] && tools/run_seeded.sh $s ${2:-quick} 2>&1 | cut -c1-400; done
